@@ -71,7 +71,7 @@ THEOREMS["C18"] = [("Flurry.Props.C18", _thms("C18", "cip_panic_unchanged cip_pa
 THEOREMS["C03"] = [("Flurry.Props.C03BinNRRefine", ["Flurry.Props.C03BinNRRefine." + n for n in "refines_abstract_discipline abstract_image_safe pc_nodes_held_abstractly every_run_has_a_projection".split()]), ("Flurry.Props.C03Reclaim2", ["Flurry.C03Reclaim2." + n for n in "held_references_valid no_touch_after_free holders_are_awaited free_waits_for_holders waitFor_covers_holders retire_only_after_unlink late_thread_cannot_acquire walk_accepted walk_then_free".split()]), ("Flurry.Lemmas.BinNRRefineExamples", ["Flurry.Proto.BinNR.transfer2_refines", "Flurry.Proto.BinNR.remove_refines"]), ("Flurry.Props.C03BinNR", ["Flurry.Props.C03BinNR." + n for n in "no_touch_after_free touched_retired_awaits holders_are_awaited holders_not_freed unlink_before_retire retire_only_unreachable free_only_when_unheld freed_was_retired obligations_unlinked projects_to_BinN".split()]), ("Flurry.Lemmas.BinNRRuns", ["Flurry.Proto.BinNR.early_refutes", "Flurry.Proto.BinNR.early_retire_touches_freed"]), ("Flurry.Props.C09", ["Flurry.C09.all_public_guarded", "Flurry.C09.check_guard_unconditional", "Flurry.C09.no_foreign_use"]), ("Flurry.Props.C01Source", ["Flurry.C01Source.every_bin_lock_is_rechecked", "Flurry.C01Source.lock_sites_present", "Flurry.C01Source.clear_waits_for_commit"]), ("Flurry.Props.C10", ["Flurry.C10.fill_then_forward_then_retire"]), ("Flurry.Lemmas.BinXCExamples", ["Flurry.Proto.BinXC.retired_unreachable", "Flurry.Proto.BinXC.retired_dead", "Flurry.Proto.BinXC.noWait_retires_reachable"]), ("Flurry.Props.C03", _thms("C03", "held_references_valid no_touch_after_free free_waits_for_holders retire_only_after_unlink unlinked_not_acquirable unprotected_guard_is_unsafe publication_needs_guard"))]
 THEOREMS["C04"] = [("Flurry.Props.C03BinNRRefine", ["Flurry.Props.C03BinNRRefine.abstract_image_safe"]), ("Flurry.Props.C04BinNR", ["Flurry.Props.C04BinNR." + n for n in "freed_at_most_once freed_stays_freed freed_for_ever free_waits_for_guards freed_after_guards retired_eventually_freeable quiescent_freeable awaited_or_exited obligation_once retire_records_guards response_retires w0_stable".split()]), ("Flurry.Props.C03Reclaim2", ["Flurry.C03Reclaim2.freed_at_most_once", "Flurry.C03Reclaim2.freed_only_after_guards"]), ("Flurry.Props.C03BinNR", ["Flurry.Props.C03BinNR.free_only_when_unheld", "Flurry.Props.C03BinNR.freed_was_retired", "Flurry.Props.C03BinNR.unlink_before_retire"]), ("Flurry.Lemmas.BinXCExamples", ["Flurry.Proto.BinXC.retired_dead", "Flurry.Proto.BinXC.binxc_linearizable_quiescent"]), ("Flurry.Props.C04", _thms("C04", "freed_at_most_once freed_only_after_guards freed_was_retired retired_is_eventually_freed refused_insert_changes_nothing"))]
 THEOREMS["C07"] = [("Flurry.Props.C07TableNI", ["Flurry.Proto.TableNI." + n for n in "tableNI_untouched_yielded_once tableNI_untouched_absent_not_yielded tableNI_yield_was_present tableNI_yield_own_lineage tableNI_yields_within tableNI_map_linearizable tableNI_iter_step_enabled tableNI_run_states_are_past_states clocks_agree".split()]), ("Flurry.Props.C07BinNIOnce2", ["Flurry.Proto.BinNI.iter_untouched_yielded_once", "Flurry.Proto.BinNI.iter_untouched_yielded_at_most_once", "Flurry.Proto.BinNI.iter_no_duplicates_of_untouched"]), ("Flurry.Props.C07BinNIOnce", ["Flurry.Proto.BinNI." + n for n in "iter_untouched_yielded iter_untouched_absent_not_yielded iter_yields_before_end iter_frames_disjoint".split()]), ("Flurry.Props.C07BinNI", ["Flurry.Proto.BinNI." + n for n in "iter_yield_was_present iter_step_enabled iter_todo_behind_markers iter_solo_terminates shared_part_reachable iterator_across_two_resizes iterator_on_frozen_list".split()]), ("Flurry.Props.C05TableG", ["Flurry.Proto.TableG.tableG_quiescent_iter_agrees", "Flurry.Proto.TableG.tableG_quiescent_keys_distinct"]), ("Flurry.Props.C01BinG", ["Flurry.Proto.BinG.binG_linearizable_quiescent", "Flurry.Proto.BinG.transfer_abs_invariant"]), ("Flurry.Props.C01BinK", ["Flurry.Proto.BinK.binK_linearizable_quiescent", "Flurry.Proto.BinK.conversion_abs_invariant"]), ("Flurry.Props.C01BinU", ["Flurry.Proto.BinU.binu_linearizable_quiescent", "Flurry.Proto.BinU.binu_f8order_not_linearizable", "Flurry.Proto.BinU.insert_locks_before_prepend"]), ("Flurry.Props.C10", ["Flurry.C10.fill_then_forward_then_retire"]), ("Flurry.Props.C07", _thms("C07", "traverse_frozen yields_each_once terminates quiescent_order"))]
-THEOREMS["C11"] = [("Flurry.Props.C11BinGNDrain", ["Flurry.Proto.BinGNP." + n for n in "binGN_drains every_call_returns quiet_step_decreases nonidle_step_decreases quiet_run_bounded quiet_run_extends binGN_drain_exists no_infinite_quiet_run quiescent_iff_maximal resize_finishes gmuN_le_bound".split()]), ("Flurry.Props.C11TableGN", ["Flurry.Proto.TableGNL." + n for n in "tableGN_never_stuck tableGN_never_stuck_all tableGN_active_idle_elsewhere tableGN_step_is_lineage_step".split()]), ("Flurry.Props.C11BinGN", ["Flurry.Proto.BinGNProg." + n for n in "binGN_never_stuck binGN_never_stuck_all step_disabled_only_by_lock holder_exists holders_do_not_wait resizer_between_cells_holds_no_lock parked_writer_waits_for_reader blocked_waits_for_other blocked_waits_for_enabled".split()]), ("Flurry.Props.C11TableG", ["Flurry.Proto.TableGP." + n for n in "tableG_never_stuck tableG_never_stuck_all tableG_drains tableG_every_call_returns tableG_quiet_step_decreases tableG_quiet_run_bounded tableG_no_infinite_quiet_run tableG_drain_exists busy_example".split()]), ("Flurry.Props.C01BinGN", ["Flurry.Proto.BinGN.tree_bin_rwlock", "Flurry.Proto.BinGN.lock_words_have_owners", "Flurry.Proto.BinGN.writer_excludes_tree_readers"]), ("Flurry.Props.C11BinGDrain", ["Flurry.Proto.BinG." + n for n in "binG_drains every_call_returns quiet_step_decreases nonidle_step_decreases quiet_run_bounded quiet_run_extends gmu_le_bound binG_drain_exists no_infinite_quiet_run quiescent_iff_maximal busy_drained".split()]), ("Flurry.Props.C11BinG", ["Flurry.Proto.BinG." + n for n in "binG_never_stuck binG_never_stuck_all step_disabled_only_by_lock holder_exists holders_do_not_wait parked_writer_waits_for_reader blocked_waits_for_other blocked_waits_for_enabled unblocked_step_progress writer_solo_progress thread_solo_progress not_blocked_of_lock_free waitState_spec".split()]), ("Flurry.Props.C12", _thms("C12", "find_loop_never_idles model_decision_is_source_decision")), ("Flurry.Props.C11", _thms("C11", "no_lost_wakeup writer_not_blocked_without_readers never_stuck writer_eventually_enabled parked_writer_woken writer_excludes_tree_readers accepted_stream_theorems")), ("Flurry.Proto.RwLockMonitor", ["Flurry.Proto.RwLockMonitor.accepted_is_reachable"])]
+THEOREMS["C11"] = [("Flurry.Props.C11TableGNDrain", ["Flurry.Proto.TableGND." + n for n in "tableGN_drains tableGN_every_call_returns tableGN_quiet_step_decreases tableGN_quiet_run_bounded tableGN_quiet_run_extends tableGN_drain_exists tableGN_no_infinite_quiet_run tableGN_quiescent_iff_maximal".split()]), ("Flurry.Props.C11BinGNDrain", ["Flurry.Proto.BinGNP." + n for n in "binGN_drains every_call_returns quiet_step_decreases nonidle_step_decreases quiet_run_bounded quiet_run_extends binGN_drain_exists no_infinite_quiet_run quiescent_iff_maximal resize_finishes gmuN_le_bound".split()]), ("Flurry.Props.C11TableGN", ["Flurry.Proto.TableGNL." + n for n in "tableGN_never_stuck tableGN_never_stuck_all tableGN_active_idle_elsewhere tableGN_step_is_lineage_step".split()]), ("Flurry.Props.C11BinGN", ["Flurry.Proto.BinGNProg." + n for n in "binGN_never_stuck binGN_never_stuck_all step_disabled_only_by_lock holder_exists holders_do_not_wait resizer_between_cells_holds_no_lock parked_writer_waits_for_reader blocked_waits_for_other blocked_waits_for_enabled".split()]), ("Flurry.Props.C11TableG", ["Flurry.Proto.TableGP." + n for n in "tableG_never_stuck tableG_never_stuck_all tableG_drains tableG_every_call_returns tableG_quiet_step_decreases tableG_quiet_run_bounded tableG_no_infinite_quiet_run tableG_drain_exists busy_example".split()]), ("Flurry.Props.C01BinGN", ["Flurry.Proto.BinGN.tree_bin_rwlock", "Flurry.Proto.BinGN.lock_words_have_owners", "Flurry.Proto.BinGN.writer_excludes_tree_readers"]), ("Flurry.Props.C11BinGDrain", ["Flurry.Proto.BinG." + n for n in "binG_drains every_call_returns quiet_step_decreases nonidle_step_decreases quiet_run_bounded quiet_run_extends gmu_le_bound binG_drain_exists no_infinite_quiet_run quiescent_iff_maximal busy_drained".split()]), ("Flurry.Props.C11BinG", ["Flurry.Proto.BinG." + n for n in "binG_never_stuck binG_never_stuck_all step_disabled_only_by_lock holder_exists holders_do_not_wait parked_writer_waits_for_reader blocked_waits_for_other blocked_waits_for_enabled unblocked_step_progress writer_solo_progress thread_solo_progress not_blocked_of_lock_free waitState_spec".split()]), ("Flurry.Props.C12", _thms("C12", "find_loop_never_idles model_decision_is_source_decision")), ("Flurry.Props.C11", _thms("C11", "no_lost_wakeup writer_not_blocked_without_readers never_stuck writer_eventually_enabled parked_writer_woken writer_excludes_tree_readers accepted_stream_theorems")), ("Flurry.Proto.RwLockMonitor", ["Flurry.Proto.RwLockMonitor.accepted_is_reachable"])]
 THEOREMS["C12"] = [("Flurry.Props.C12TableGN", ["Flurry.Proto.TableGNL." + n for n in "tableGN_reader_step_enabled tableGN_reader_step_frame tableGN_reader_solo_terminates".split()]), ("Flurry.Props.C12BinGN", ["Flurry.Proto.BinGNProg." + n for n in "reader_step_enabled reader_step_frame reader_step reader_solo_terminates soloBound_eq".split()]), ("Flurry.Props.C12TableG", ["Flurry.Proto.TableGP." + n for n in "tableG_reader_step_enabled tableG_reader_step_frame tableG_reader_solo_terminates".split()]), ("Flurry.Props.C07TableNI", ["Flurry.Proto.TableNI.tableNI_iter_step_enabled"]), ("Flurry.Props.C07BinNI", ["Flurry.Proto.BinNI.iter_step_enabled", "Flurry.Proto.BinNI.iter_solo_terminates"]), ("Flurry.Props.C12BinG", ["Flurry.Proto.BinG." + n for n in "reader_step_enabled reader_step_frame reader_step reader_solo_terminates soloBound_eq midState_spec parkState_spec".split()]), ("Flurry.Props.C12", _thms("C12", "roots_in_closure roots_named reach_closed reader_lock_free roots_present reader_never_blocked tree_readers_exclude_writer find_loop_never_idles find_linear_iff_bits model_decision_is_source_decision find_searches_tree_under_read_lock find_writes_nothing_but_the_lock_word")),
                    ("Flurry.Props.C12Bins", ["Flurry.Proto.BinT.reader_step_enabled", "Flurry.Proto.BinT.reader_step_frame", "Flurry.Proto.BinT.reader_solo_terminates",
                                              "Flurry.Proto.BinX.reader_step_enabled", "Flurry.Proto.BinX.reader_step_frame", "Flurry.Proto.BinX.reader_solo_terminates"])]
